@@ -112,7 +112,9 @@ fn main() {
     };
     // Panics inside explored executions are caught and turned into violations by the engines;
     // keep the default hook quiet so that the output stays readable.
-    std::panic::set_hook(Box::new(|_| {}));
+    if std::env::var("VERIF_PANIC_TRACE").is_err() {
+        std::panic::set_hook(Box::new(|_| {}));
+    }
 
     if let Some(r) = replay {
         std::process::exit(replay_file(&ctx, &r));
